@@ -27,11 +27,6 @@ def FactorFail {σ : Type} (cb : σ → CbArg → Option σ) (s : Schema) (ks : 
   ∃ q i t stq, p = q ++ [i] ∧ s.at? q = some t ∧ i < t.arity ∧ cbAlong cb s q st = some stq ∧
     cb stq (t.cbArg i) = none ∧ s.traverse cb ks st = (.inner p.length, stq)
 
-theorem incrN_inner (n d : Nat) : Res.incrN n (.inner d) = .inner (d + n) := by
-  induction n with
-  | zero => rfl
-  | succ n ih => simp [Res.incrN, ih, Res.incr]; omega
-
 theorem stop_of_leaf {σ : Type} (cb : σ → CbArg → Option σ) (ks : KeySrc) (st : σ) :
     Schema.leaf.traverse cb ks st = (stopAt .leaf ks, st) := by
   simp only [Schema.traverse, stopAt, Schema.isLeaf, if_true]
